@@ -16,7 +16,8 @@ N_CASES = {"quick": 120, "thorough": 2000}
 RULE = ("every graph a successful analysis builds for generated causally consistent traces and windows (as C08) is saved and restored 1, 2 or 3 times with the real "
         "CPGraph.save / restore_cpgraph; after every cycle the observation (nodes, edges with weight, type and stored object, attribution map, node list, start/end "
         "maps, critical path nodes / events / edges, breakdown rows) must equal the original's, and critical_path() recomputed on the restored graph must give a "
-        "path of the same total weight; the Coq side re-checks on every run that the field lists read out of the current source cover every attribute the observers "
+        "path of the same total weight; in addition a second graph (another window of the rank) is saved into a directory that already holds the first and must "
+        "restore to itself; the Coq side re-checks on every run that the field lists read out of the current source cover every attribute the observers "
         "read; non-trivial = the graph has >= 10 edges; distinct = hash of file set and parameters")
 ASSUMPTIONS = ["codec round trips (pickle of dataclasses and enums, networkx node-link data, CSV dtypes, zip paths) are runtime behaviour: hypotheses of the theorems, "
                "exercised by the real save/restore cycles here",
@@ -60,6 +61,7 @@ def run_impl(case, d):
         diffs = []
         for k in range(ncycles):
             out_dir = os.path.join(d, f"cp_save_{k}")
+            before = observe(cur)         # the graph as it is saved in this cycle (a recomputed path may be another of several maximum-weight paths)
             z = cur.save(out_dir)
             cur = restore_cpgraph(z, ta.t, res["rank"])
             shutil.rmtree("/tmp" + out_dir, ignore_errors=True)
@@ -71,6 +73,27 @@ def run_impl(case, d):
             w2 = sum(int(cur.edges[u, v]["weight"]) for u, v in zip(cur.critical_path_nodes, cur.critical_path_nodes[1:]))
             if not ok or w2 != before["path_weight"]:
                 diffs.append(f"after {k + 1} cycle(s): recomputed critical path weighs {w2} (success={ok}), the original {before['path_weight']}")
+        # history: a different graph (another window of the same rank) saved into a directory that already holds a saved graph
+        ann2 = "" if res["annotation"] != "" else "ProfilerStep"
+        if cp.window_has_events(res["rows"], ann2, None):
+            try:
+                out2 = ta.critical_path_analysis(rank=res["rank"], annotation=ann2, instance_id=None)
+            except AssertionError:
+                out2 = None
+            if out2 is not None and out2[1]:
+                g2 = out2[0]
+                before2 = observe(g2)
+                shared = os.path.join(d, "cp_save_shared")
+                g.save(shared)
+                z2 = g2.save(shared)
+                r2 = restore_cpgraph(z2, ta.t, res["rank"])
+                shutil.rmtree("/tmp" + shared, ignore_errors=True)
+                after2 = observe(r2)
+                res["second_graph"] = True
+                for key in before2:
+                    if before2[key] != after2[key]:
+                        diffs.append(f"second graph (window {ann2!r}) saved into a directory already holding the first: {key} differs after restore: "
+                                     f"{str(before2[key])[:160]} vs {str(after2[key])[:160]}")
         res["diffs"] = diffs
     except Exception as e:
         import traceback
